@@ -15,7 +15,7 @@ use linfa_nn::CommonNearestNeighbour;
 use lvmc_core::enumerate as en;
 use lvmc_core::refmath::{self, Metric};
 use lvmc_core::{guarded, json, par_sweep, Ctx, Level, Value, Violation};
-use ndarray::Array2;
+use ndarray::{s, Array2, ArrayView2, ShapeBuilder};
 use reference::{OSample, RefModel};
 use serde::{Deserialize, Serialize};
 use std::sync::atomic::{AtomicU64, Ordering};
@@ -30,6 +30,14 @@ struct Case {
     /// coordinates are small integers: L1 / Linf distances and perfect-square L2 distances are exact
     integer_coords: bool,
     min_points: Vec<usize>,
+    /// memory layout in which the SAME logical matrix is handed to the subject:
+    /// "standard" | "col_major" | "reversed_rows_view" | "every_second_row_view"
+    #[serde(default = "standard_layout")]
+    layout: String,
+}
+
+fn standard_layout() -> String {
+    "standard".into()
 }
 
 /// The one run inside a case that a violation belongs to (used by --replay to narrow).
@@ -85,6 +93,9 @@ struct Counters {
     optics_defined_reachability_seen: u64,
     zero_feature_runs: u64,
     index_triples_compared: u64,
+    layout_runs: u64,
+    layout_runs_compared_with_standard: u64,
+    kdtree_documented_noncontiguous_panics: u64,
 }
 
 /// A violation found inside a case; the (expensive) case JSON is attached by `to_violation`.
@@ -168,6 +179,21 @@ fn run_typed<F: Float, D: Distance<F> + 'static>(case: &Case, dist_fn: D, only: 
     let pts: Vec<Vec<f64>> = (0..n).map(|i| (0..d).map(|j| to_f64(batch[(i, j)])).collect()).collect();
     let dist: Vec<Vec<f64>> = (0..n).map(|i| (0..n).map(|j| refmath::dist(metric, &pts[i], &pts[j])).collect()).collect();
     let scale = dist.iter().flatten().cloned().fold(1.0f64, f64::max);
+    // the same logical matrix in the requested memory layout (`input`); `batch` stays the standard one
+    let col_major: Array2<F> = Array2::from_shape_fn((n, d).f(), |(i, j)| batch[(i, j)]);
+    let reversed: Array2<F> = Array2::from_shape_fn((n, d), |(i, j)| batch[(n - 1 - i, j)]);
+    let doubled: Array2<F> = Array2::from_shape_fn((2 * n, d), |(i, j)| if i % 2 == 0 { batch[(i / 2, j)] } else { F::from(1000.0 + (i * 7 + j) as f64).unwrap() });
+    let nonstandard = case.layout != "standard";
+    let input: ArrayView2<F> = match case.layout.as_str() {
+        "standard" => batch.view(),
+        "col_major" => col_major.view(),
+        "reversed_rows_view" => reversed.slice(s![..;-1, ..]),
+        "every_second_row_view" => doubled.slice(s![..;2, ..]),
+        other => panic!("unknown layout {}", other),
+    };
+    assert!(input == batch, "layout construction must not change the logical matrix");
+    // rows of the input that the k-d tree cannot borrow as slices -> its documented panic is acceptable
+    let rows_noncontiguous = input.rows().into_iter().any(|r| r.to_slice().is_none());
     let exact = |i: usize, j: usize| -> bool {
         if !case.integer_coords {
             return false;
@@ -229,13 +255,32 @@ fn run_typed<F: Float, D: Distance<F> + 'static>(case: &Case, dist_fn: D, only: 
                     let mut found: Vec<(String, String)> = Vec::new();
                     if algo == "dbscan" {
                         cnt.dbscan_runs += 1;
-                        let res = guarded(|| {
-                            Dbscan::params_with::<F, D, CommonNearestNeighbour>(mp, dist_fn.clone(), kind.clone())
-                                .tolerance(eps_f)
-                                .check()
-                                .map(|p| p.transform(&batch).to_vec())
-                                .map_err(|e| e.to_string())
-                        });
+                        let run = |x: &ArrayView2<F>| {
+                            guarded(|| {
+                                Dbscan::params_with::<F, D, CommonNearestNeighbour>(mp, dist_fn.clone(), kind.clone())
+                                    .tolerance(eps_f)
+                                    .check()
+                                    .map(|p| p.transform(x).to_vec())
+                                    .map_err(|e| e.to_string())
+                            })
+                        };
+                        let res = run(&input);
+                        if nonstandard {
+                            cnt.layout_runs += 1;
+                        }
+                        let documented = nonstandard && *kname == "kdtree" && rows_noncontiguous && matches!(&res, Err(p) if p.contains("views should be contiguous"));
+                        if documented {
+                            cnt.kdtree_documented_noncontiguous_panics += 1;
+                            continue;
+                        }
+                        if nonstandard {
+                            if let (Ok(Ok(got)), Ok(Ok(std))) = (&res, &run(&batch.view())) {
+                                cnt.layout_runs_compared_with_standard += 1;
+                                if got != std {
+                                    found.push(("dbscan.layout_dependence".into(), format!("the same matrix in layout {} gives {:?}, in standard layout {:?}", case.layout, got, std)));
+                                }
+                            }
+                        }
                         match res {
                             Err(p) => found.push((format!("dbscan.panic.{}", kname), format!("DBSCAN on {} samples panicked: {}", n, p))),
                             Ok(Err(e)) => found.push(("dbscan.valid_params_rejected".into(), format!("min_points {} / tolerance {} rejected: {}", mp, eps64, e))),
@@ -258,17 +303,37 @@ fn run_typed<F: Float, D: Distance<F> + 'static>(case: &Case, dist_fn: D, only: 
                         if eps_opt.is_none() {
                             cnt.optics_inf_tolerance_runs += 1;
                         }
-                        let res = guarded(|| {
-                            let params = Optics::params_with::<F, D, CommonNearestNeighbour>(mp, dist_fn.clone(), kind.clone());
-                            let params = if eps_opt.is_some() { params.tolerance(eps_f) } else { params };
-                            params
-                                .check()
-                                .map(|p| {
-                                    let an = p.transform(batch.view());
-                                    an.iter().map(|s| (s.index(), s.core_distance().map(to_f64), s.reachability_distance().map(to_f64))).collect::<Vec<OSample>>()
-                                })
-                                .map_err(|e| e.to_string())
-                        });
+                        let run = |x: &ArrayView2<F>| {
+                            guarded(|| {
+                                let params = Optics::params_with::<F, D, CommonNearestNeighbour>(mp, dist_fn.clone(), kind.clone());
+                                let params = if eps_opt.is_some() { params.tolerance(eps_f) } else { params };
+                                params
+                                    .check()
+                                    .map(|p| {
+                                        let an = p.transform(x.view());
+                                        an.iter().map(|s| (s.index(), s.core_distance().map(to_f64), s.reachability_distance().map(to_f64))).collect::<Vec<OSample>>()
+                                    })
+                                    .map_err(|e| e.to_string())
+                            })
+                        };
+                        let res = run(&input);
+                        if nonstandard {
+                            cnt.layout_runs += 1;
+                        }
+                        let documented = nonstandard && *kname == "kdtree" && rows_noncontiguous && matches!(&res, Err(p) if p.contains("views should be contiguous"));
+                        if documented {
+                            cnt.kdtree_documented_noncontiguous_panics += 1;
+                            continue;
+                        }
+                        if nonstandard {
+                            if let (Ok(Ok(got)), Ok(Ok(std))) = (&res, &run(&batch.view())) {
+                                cnt.layout_runs_compared_with_standard += 1;
+                                let bits = |v: &Vec<OSample>| -> Vec<(usize, Option<u64>, Option<u64>)> { v.iter().map(|s| (s.0, s.1.map(f64::to_bits), s.2.map(f64::to_bits))).collect() };
+                                if bits(got) != bits(std) {
+                                    found.push(("optics.layout_dependence".into(), format!("the same matrix in layout {} gives {:?}, in standard layout {:?}", case.layout, got, std)));
+                                }
+                            }
+                        }
                         match res {
                             Err(p) => found.push((format!("optics.panic.{}", kname), format!("OPTICS on {} samples panicked: {}", n, p))),
                             Ok(Err(e)) => found.push(("optics.valid_params_rejected".into(), format!("min_points {} / tolerance {} rejected: {}", mp, eps64, e))),
@@ -324,35 +389,36 @@ fn run_typed<F: Float, D: Distance<F> + 'static>(case: &Case, dist_fn: D, only: 
                         }
                     }
                     for (sig, what) in found {
-                        viols.push(Found { sig, what: format!("[{} {} {} {} n={} min_points={} tolerance={} ({})] {}", algo, kname, case.metric, case.float, n, mp, eps64, eps_class, what), at: at.clone() });
+                        viols.push(Found { sig, what: format!("[{} {} {} {} {} n={} min_points={} tolerance={} ({})] {}", algo, kname, case.metric, case.float, case.layout, n, mp, eps64, eps_class, what), at: at.clone() });
                     }
                 }
                 // ---- independence of the neighbour index: bit-identical outputs ----
                 if only.map_or(true, |o| o.kind == "all") && !(d > 0 && model.ambiguous) {
-                    if algo == "dbscan" && db_out.len() == 3 {
+                    if algo == "dbscan" && db_out.len() >= 2 {
                         cnt.index_triples_compared += 1;
-                        if !(db_out[0].1 == db_out[1].1 && db_out[1].1 == db_out[2].1) {
+                        if db_out.iter().any(|o| o.1 != db_out[0].1) {
                             viols.push(Found {
                                 sig: "dbscan.index_dependence".into(),
                                 what: format!(
-                                    "[dbscan {} {} n={} min_points={} tolerance={} ({})] labelling depends on the neighbour index: linear {:?} kdtree {:?} balltree {:?}",
-                                    case.metric, case.float, n, mp, eps64, eps_class, db_out[0].1, db_out[1].1, db_out[2].1
+                                    "[dbscan {} {} n={} min_points={} tolerance={} ({})] labelling depends on the neighbour index: {:?}",
+                                    case.metric, case.float, n, mp, eps64, eps_class, db_out
                                 ),
                                 at: at_all.clone(),
                             });
                         }
                     }
-                    if algo == "optics" && op_out.len() == 3 {
+                    if algo == "optics" && op_out.len() >= 2 {
                         cnt.index_triples_compared += 1;
                         let bits = |v: &Vec<OSample>| -> Vec<(usize, Option<u64>, Option<u64>)> { v.iter().map(|s| (s.0, s.1.map(f64::to_bits), s.2.map(f64::to_bits))).collect() };
-                        let (l, k, b) = (bits(&op_out[0].1), bits(&op_out[1].1), bits(&op_out[2].1));
-                        if !(l == k && k == b) {
-                            let sig = if k == b && linear_unsorted { "optics.index_dependence.linear_unsorted_core_distance" } else { "optics.index_dependence" };
+                        let all: Vec<_> = op_out.iter().map(|o| bits(&o.1)).collect();
+                        if all.iter().any(|x| *x != all[0]) {
+                            let others_agree = all[1..].iter().all(|x| *x == all[1]);
+                            let sig = if op_out[0].0 == "linear" && others_agree && linear_unsorted { "optics.index_dependence.linear_unsorted_core_distance" } else { "optics.index_dependence" };
                             viols.push(Found {
                                 sig: sig.into(),
                                 what: format!(
-                                    "[optics {} {} n={} min_points={} tolerance={} ({})] analysis depends on the neighbour index: linear {:?} kdtree {:?} balltree {:?}",
-                                    case.metric, case.float, n, mp, eps64, eps_class, op_out[0].1, op_out[1].1, op_out[2].1
+                                    "[optics {} {} n={} min_points={} tolerance={} ({})] analysis depends on the neighbour index: {:?}",
+                                    case.metric, case.float, n, mp, eps64, eps_class, op_out
                                 ),
                                 at: at_all.clone(),
                             });
@@ -395,7 +461,8 @@ fn main() {
          values of {0..5} in 1-D (thorough: also every sequence of 7 values of {0..4}, L2 only), every multiset of 6 (quick) / 6..8 (thorough) values of {0..5} in sorted order, every subset of <=5 / <=6 points of the 3x3 lattice in \
          lexicographic order and its generic-position image (constant jitter table), every ordered selection of <=4 / <=5 lattice points (row orders), every multiset of <=5 points \
          of the 2x2 lattice with duplicates, every subset of <=4 / <=5 corners of the unit cube (3-D), the 5x4 lattice and the 1-D line {0..19} with <=1 / <=3 points removed \
-         (n = 17..20 > default leaf size 16, so the k-d tree and the ball tree really branch), two 1-D blobs with a bridge position (0..3 / 0..4 copies at each of 5 positions, three row orders; L2 only), zero-feature matrices with 0..5 rows, empty matrices; \
+         (n = 17..20 > default leaf size 16, so the k-d tree and the ball tree really branch), two 1-D blobs with a bridge position (0..3 / 0..4 copies at each of 5 positions, three row orders; L2 only), zero-feature matrices with 0..5 rows, empty matrices; the lattice3x3 / lattice2x2 / cube / 5x4 families (thorough: also the row-order family) are repeated in three further memory layouts of the same matrix \
+         (column-major, reversed-rows view, every-second-row view); \
          per case: min_points 2..4 (2..5 for the large families), tolerances of class A (below the smallest positive inter-point distance, every midpoint between consecutive \
          distinct distances, above the largest) and class B (exactly every distinct inter-point distance), the three neighbour indices, DBSCAN and OPTICS, OPTICS also with its default \
          infinite tolerance. evaluation = one transform call; non-trivial = DBSCAN run whose reference clustering has a core point and is not 'all points core in one cluster', \
@@ -406,7 +473,8 @@ fn main() {
     ctx.assume("core and reachability distances are compared with relative tolerance 1e-9 (f64) / 1e-4 (f32); labels, orderings and the cross-index comparison (bit-identical outputs of the three indices) are exact");
     ctx.assume("OPTICS reachability is only required to be undefined or max(core(o), d(o,p)) for SOME core o within the tolerance listed no later than p (o = p allowed), as the statement says; minimality over all predecessors and the visiting order are not demanded");
     ctx.assume("zero-feature matrices: the subject deliberately maps BuildError::ZeroDimension to 'nothing clusters' (DBSCAN all noise, OPTICS every sample once with undefined distances); this boundary input is checked for exactly that behaviour on all indices, not against the distance-0 reading of the definition");
-    ctx.assume("min_points >= 2 and tolerance > 0 only (the parameter guards are C04's subject); finite coordinates; standard-layout (contiguous) matrices as the k-d tree documents");
+    ctx.assume("memory layout: the 2-D / 3-D lattice families are additionally passed as a column-major array, as a reversed-rows view of a reversed copy and as an every-second-row view of a larger array (logically the same matrix, asserted); each run must satisfy the same oracle AND equal the standard-layout result bit for bit; only for the k-d tree on an input whose rows are not contiguous the documented panic ('views should be contiguous', rustdoc of linfa_nn::KdTree) is accepted instead - nothing else");
+    ctx.assume("min_points >= 2 and tolerance > 0 only (the parameter guards are C04's subject); finite coordinates");
 
     // ---------------- enumerate cases ----------------
     struct PointSet {
@@ -417,6 +485,7 @@ fn main() {
         floats: &'static [&'static str],
         metrics: &'static [&'static str],
         min_points: &'static [usize],
+        layouts: bool,
     }
     const BOTH: &[&str] = &["f64", "f32"];
     const F64: &[&str] = &["f64"];
@@ -425,8 +494,14 @@ fn main() {
     const MP_SMALL: &[usize] = &[2, 3, 4];
     const MP_LARGE: &[usize] = &[2, 3, 4, 5];
     let mut sets: Vec<PointSet> = Vec::new();
+    let thorough = ctx.thorough();
     let mut add = |family: &'static str, points: Vec<Vec<f64>>, dim: usize, integer: bool, floats: &'static [&'static str], metrics: &'static [&'static str], min_points: &'static [usize]| {
-        sets.push(PointSet { family, points, dim, integer, floats, metrics, min_points });
+        let layouts = dim >= 2 && match family {
+            "lattice3x3" | "lattice2x2_multiset" | "cube2x2x2" | "lattice5x4_minus" => true,
+            "lattice3x3_order" => thorough,
+            _ => false,
+        };
+        sets.push(PointSet { family, points, dim, integer, floats, metrics, min_points, layouts });
     };
     // A: 1-D, every row order of every multiset (chains, duplicates, isolated noise)
     for s in en::sequences_upto(ctx.pick(5, 6), 6) {
@@ -516,8 +591,11 @@ fn main() {
     for ps in &sets {
         for f in ps.floats {
             for m in ps.metrics {
-                *per_family.entry(ps.family.to_string()).or_default() += 1;
-                cases.push(Case { family: ps.family.into(), points: ps.points.clone(), dim: ps.dim, float: (*f).into(), metric: (*m).into(), integer_coords: ps.integer, min_points: ps.min_points.to_vec() });
+                let layouts: &[&str] = if ps.layouts { &["standard", "col_major", "reversed_rows_view", "every_second_row_view"] } else { &["standard"] };
+                for l in layouts {
+                    *per_family.entry(if *l == "standard" { ps.family.to_string() } else { format!("{}@{}", ps.family, l) }).or_default() += 1;
+                    cases.push(Case { family: ps.family.into(), points: ps.points.clone(), dim: ps.dim, float: (*f).into(), metric: (*m).into(), integer_coords: ps.integer, min_points: ps.min_points.to_vec(), layout: (*l).into() });
+                }
             }
         }
     }
@@ -563,9 +641,12 @@ fn main() {
             t.optics_defined_reachability_seen += cnt.optics_defined_reachability_seen;
             t.zero_feature_runs += cnt.zero_feature_runs;
             t.index_triples_compared += cnt.index_triples_compared;
+            t.layout_runs += cnt.layout_runs;
+            t.layout_runs_compared_with_standard += cnt.layout_runs_compared_with_standard;
+            t.kdtree_documented_noncontiguous_panics += cnt.kdtree_documented_noncontiguous_panics;
         }
         done.fetch_add(1, Ordering::Relaxed);
-        ctx.sample(|| json!({"family": c.family, "points": c.points, "float": c.float, "metric": c.metric, "min_points": c.min_points}));
+        ctx.sample(|| json!({"family": c.family, "points": c.points, "float": c.float, "metric": c.metric, "min_points": c.min_points, "layout": c.layout}));
     });
     let t = total.lock().unwrap().clone();
     let completed = done.load(Ordering::Relaxed);
@@ -586,5 +667,8 @@ fn main() {
     ctx.extra("optics_samples_with_defined_reachability", json!(t.optics_defined_reachability_seen));
     ctx.extra("zero_feature_runs", json!(t.zero_feature_runs));
     ctx.extra("index_triples_compared_bitwise", json!(t.index_triples_compared));
+    ctx.extra("nonstandard_layout_runs", json!(t.layout_runs));
+    ctx.extra("nonstandard_layout_runs_compared_bitwise_with_standard_layout", json!(t.layout_runs_compared_with_standard));
+    ctx.extra("kdtree_documented_noncontiguous_row_panics_accepted", json!(t.kdtree_documented_noncontiguous_panics));
     ctx.finish(&replay_value);
 }
